@@ -46,7 +46,11 @@ JUNK_TEXT = ["1E+600000000", "1E+999999999999", "-1E-600000000", "9" * 5000, "1"
              "9223372036854775807", "9223372036854775808", "-9223372036854775809", "18446744073709551616", "\u22121", "1,5", "1 000", "True", "False", "yes", "0 ", "1\u00a0", "\u20031",
              "aGVsbG8", "aGVs bG8=", "aGVsbG8==", "aGVsbG8=\n", "=aGVsbG8", "ZZ", "abc", "0xZZ", "AbCd ", "1e5", "1E5", "1.0", "+1", "INF", "-INF", "+INF", "1d", "1f", "1L", "0b1", "1__0", "0o7",
              "ns0:x", "xs:string", "xsd:int", "{}x", "{urn:x}", "a b", "a:b:c", "xml:x", "xmlns:x", "\ud7ff", "\ufffd", "\U0001f600", "&", "<", "]]>",
-             "sNaN", "-sNaN", "snan", "NaN1", "sNaN7", "-Infinity", "-NaN", "1E", "E5", "0E0", "-0.0", "00.00", "+.5", "1,5E2", "PT1,5S", "PT0:30S", "PT1 5S", "P1DT1,5S", "12:00:00,5", "2020-01-01T12:00:00,5"]
+             "sNaN", "-sNaN", "snan", "NaN1", "sNaN7", "-Infinity", "-NaN", "1E", "E5", "0E0", "-0.0", "00.00", "+.5", "1,5E2", "PT1,5S", "PT0:30S", "PT1 5S", "P1DT1,5S", "12:00:00,5", "2020-01-01T12:00:00,5",
+             # a long legal-looking run that ends in one illegal character: backtracking bait for every pattern-checked type
+             "{urn:example:orders:schema:v1:purchaseOrder items}po", "{http://example.com/" + "a/" * 20 + "b c}x", "{urn:" + "a" * 40 + "|}x", "{urn:" + "a:" * 30 + "^}x", "urn:" + "a" * 40 + " b",
+             "a" * 30 + "!", "1" * 40 + "x", "P" + "1Y" * 30, "P" + "1" * 60 + "Z", "PT" + "1" * 40 + ".S", "-" * 40, "2020-01-01T00:00:00." + "9" * 40 + "x", "1 " * 40 + "x", "A" * 64 + "=!", "0" * 60 + "e", "+" + "1" * 50 + ".", "2020-01-01" + "+" * 30, "é" * 40 + "!",
+             " " * 60 + "x", "x" + " " * 60, "a:" * 40, "(" * 40, "\\" * 40]
 JUNK_JSON = [{"qname": "a", "type": None, "value": {"qname": "b", "type": None, "value": 1}}, {"qname": "a", "type": "{urn:x}dog", "value": [1]}, [None, None], {"": 1}, [{"": {}}], 1e308 * 10, -0.0,
              None, True, 0, -1, 1.5, 1e400, "", "abc", [], [[]], [1, [2]], {}, {"a": 1}, {"qname": "q", "type": None, "value": 1}, {"qname": "q", "text": None, "tail": None, "children": [], "attributes": {}}, [None], "9" * 40, {"value": {}},
              # generic-element shaped objects with unusable parts
@@ -78,6 +82,8 @@ def build_store():
             Store.json[name] = (text, ck)
     seen = set()
     for key in sorted(C.CLASSES):
+        if key in C.SERIALIZE_ONLY:
+            continue
         cls = C.CLASSES[key]
         meta = cls.__dict__.get("Meta")
         ns = getattr(meta, "namespace", None)
@@ -118,7 +124,7 @@ def gen_fault(rng, decoder, data_len):
     elif k in ("pad_truncate", "pad_only"):
         f.update(size=rng.choice(BOUNDARIES), where=rng.choice(["comment", "space", "text"]), cut=rng.choice([0, 0, 1, -1, 7]))
     elif k == "insert_bytes":
-        f.update(off=rng.randrange(n + 1), text=rng.choice(["<", ">", "&", "&#0;", "&nope;", "<!--", "]]>", "<?x", "\x00", "\xff\xfe", '"', "'", "</x>", "<a>", "{", "}", "[", ",", "\\u12", "\\", "\ud800".encode("utf-8", "surrogatepass").decode("latin-1")]))
+        f.update(off=rng.choice([0, 0, n, rng.randrange(n + 1), rng.randrange(n + 1), rng.randrange(n + 1), rng.randrange(n + 1)]), text=rng.choice([" ", "\n", "\t\r\n ", "\x0b", "\u00a0", "\ufeff", "<", ">", "&", "&#0;", "&nope;", "<!--", "]]>", "<?x", "\x00", "\xff\xfe", '"', "'", "</x>", "<a>", "{", "}", "[", ",", "\\u12", "\\", "\ud800".encode("utf-8", "surrogatepass").decode("latin-1")]))
     elif k in XML_STRUCT_FAULTS or k in JSON_STRUCT_FAULTS:
         f.update(idx=rng.randrange(64), idx2=rng.randrange(64), val=rng.randrange(1 << 16))
     return f
